@@ -76,7 +76,7 @@ func (check) Cases(tier string) int {
 func (check) Exhaustive(string) bool { return false }
 
 func (check) Rule() string {
-	return "each random case: 20 documents = a random data tree (objects over a key pool incl. \"\", spaces, quotes, backslash, non-ASCII; arrays; strings over an alphabet with quote, backslash, solidus, control, DEL, non-ASCII, astral, Unicode spaces and all syntax characters, strings ending in backslashes; integers at the int64/uint64/2^53 boundaries; floats incl. extremes; true/false/null; {} and []) rendered by our own renderer (compact / indented / whitespace with probability 8..95% at every position JSON allows; every escape spelling incl. upper/lower/mixed hex and surrogate pairs; fraction and exponent respellings of numbers), validated against encoding/json, parsed with parse.Value and with all 24 legal parse.Config values; ~1/7 of the documents additionally spell some strings with single quotes; plus 2 top-level comma word lists per case; plus (thorough: all, quick: a seed-chosen slice of) strings of length <= 6 over [ ] { } \" , : \\ a 1 space that encoding/json accepts. Non-trivial = the document has at least one container or one escaped string; distinct = distinct document text."
+	return "each random case: 20 documents = a random data tree (objects over a key pool incl. \"\", spaces, quotes, backslash, non-ASCII; arrays; strings over an alphabet with quote, backslash, solidus, control, DEL, non-ASCII, astral, Unicode spaces and all syntax characters, strings ending in backslashes; integers at the int64/uint64/2^53 boundaries; floats incl. extremes; true/false/null; {} and []) rendered by our own renderer (compact / indented / whitespace with probability 8..95% at every position JSON allows; every escape spelling incl. upper/lower/mixed hex and surrogate pairs; fraction and exponent respellings of numbers), validated against encoding/json, parsed with parse.Value and with all 24 legal parse.Config values; ~1/7 of the documents additionally spell some strings with single quotes; plus 2 top-level comma word lists per case; plus 6 nested-literal documents per case (arrays/objects, nested up to 3 deep, under a config with Object, StringDQuote and/or StringSQuote off, whose elements / member values open with a disabled { \" or ' and hold the other container's closer, colons, quotes, spaces; mixed with normal scalars, enabled-quote strings holding stop characters, unquoted and enabled-quote keys; each run with IgnoreCommas off and on); plus (thorough: all, quick: a seed-chosen slice of) strings of length <= 6 over [ ] { } \" , : \\ a 1 space that encoding/json accepts. Non-trivial = the document has at least one container or one escaped string; distinct = distinct document text."
 }
 
 func (check) Assumptions() []string {
@@ -85,7 +85,7 @@ func (check) Assumptions() []string {
 		"canonical comparison: numbers by value (uint64/int64/float64 all fine), nil == {} == [] == absent key inside dictionaries (the parser documents []/{} -> nil), nil list elements stay",
 		"numbers: integers in digit spelling over the whole int64/uint64 range; fraction/exponent spellings only for values a float64 holds exactly (|n| <= 2^53) or for float64 data (compared with the correctly rounded value); nothing beyond uint64/float64 range; no duplicate object keys",
 		"single-quoted strings are taken verbatim (documented: no unescaping) and never contain a single quote",
-		"config rules: (1) a document using only enabled syntax must parse as under DefaultConfig (or as the generating data); (2) a document OPENING with a disabled bracket/quote must come back as its literal trimmed text, judged only without any comma in the text or under IgnoreCommas; documents using disabled syntax only deeper inside are not judged; double-quoted object keys with StringDQuote off are not judged; (3) plain-word comma lists: list without IgnoreCommas, one string with it; IgnoreCommas after a quoted first element is not generated",
+		"config rules: (1) a document using only enabled syntax must parse as under DefaultConfig (or as the generating data); (2) a document OPENING with a disabled bracket/quote must come back as its literal trimmed text, judged only without any comma in the text or under IgnoreCommas; random JSON documents using disabled syntax only deeper inside are not judged (their commas make the literal reading split them); the nested-literal documents judge exactly that position: an array element / object member value opening with a disabled opener is the raw text up to the container's next stop character (comma or ] in an array, comma or } in an object), no bracket or quote matching, trimmed; expectation built constructively and cross-checked by an own raw-slicing reader of that rule (disagreement = generator_error); object keys opening with a DISABLED quote are not generated (the parser reads quoted keys regardless of the flags); (3) plain-word comma lists: list without IgnoreCommas, one string with it; IgnoreCommas after a quoted first element is not generated",
 		"invalid JSON, trailing commas, unquoted strings inside containers are outside this property (C07 covers crashes on malformed input)",
 	}
 }
@@ -722,6 +722,9 @@ func (check) Run(seed int64, tier string, idx int, verbose bool) harness.Result 
 	}
 	for k := 0; k < wordDocsPerCase; k++ {
 		c.wordDoc(r)
+	}
+	for k := 0; k < nestedDocsPerCase; k++ {
+		c.nestedDoc(r, tier)
 	}
 	return res.Done()
 }
